@@ -33,6 +33,7 @@ func init() {
 			{ID: "C17.R4", Doc: "the four generated method shapes, pushed through the mux's extracted switch, agree with the receiver closure and HandleRPC", Run: c17r4},
 			{ID: "C17.R5", Doc: "identifier helpers that join two descriptor names with '_' escape '_' in both parts (injective mangling)", Run: c17r5},
 			{ID: "C17.R6", Doc: "plugin options (protolib, json) are read only inside the Run callback, through the variables the flags are bound to: no copy is taken before the parameters are parsed", Run: c17r6},
+			{ID: "C17.R7", Doc: "the helpers that compute generated identifiers and RPC names from a service/method are functions of their arguments: they keep no state between calls", Run: c17r7},
 			{ID: "C17.R3", Doc: "checked-in generated files: NumMethods == number of cases; client and description RPC constants agree", Run: c17r3, Tier: "thorough", Scope: "sub:internal/integration"},
 		},
 	})
@@ -699,14 +700,14 @@ func c17r4(c *an.Ctx) {
 	}
 	ro := genFunc(mpk, "registerOne")
 	type muxCase struct {
-		kind    string // NumOut | NumIn
-		n       int
+		numIn   int // required NumIn(), -1 if the case does not test it
+		numOut  int // required NumOut(), -1 if the case does not test it
 		unitary bool
 		in1     string // "In(k)" or "stream"
 		in2     bool   // in2 = streamType
 	}
 	var cases []muxCase
-	hasDefaultErr := false
+	hasDefaultErr, unknownCase := false, false
 	ast.Inspect(ro.Body, func(n ast.Node) bool {
 		sw, ok := n.(*ast.SwitchStmt)
 		if !ok {
@@ -722,21 +723,50 @@ func c17r4(c *an.Ctx) {
 				}
 				continue
 			}
-			be, ok := cc.List[0].(*ast.BinaryExpr)
-			if !ok || be.Op != token.EQL {
+			// a case is a conjunction of NumIn() == k / NumOut() == k tests
+			mc := muxCase{numIn: -1, numOut: -1}
+			okCase := len(cc.List) == 1
+			var conj func(e ast.Expr)
+			conj = func(e ast.Expr) {
+				if pe, isP := e.(*ast.ParenExpr); isP {
+					conj(pe.X)
+					return
+				}
+				be, ok := e.(*ast.BinaryExpr)
+				if !ok {
+					okCase = false
+					return
+				}
+				if be.Op == token.LAND {
+					conj(be.X)
+					conj(be.Y)
+					return
+				}
+				if be.Op != token.EQL {
+					okCase = false
+					return
+				}
+				k := -1
+				if tv, ok := mpk.TypesInfo.Types[be.Y]; ok && tv.Value != nil {
+					v, _ := constant.Int64Val(tv.Value)
+					k = int(v)
+				}
+				l := exprString(be.X)
+				switch {
+				case k >= 0 && strings.HasSuffix(l, ".NumOut()"):
+					mc.numOut = k
+				case k >= 0 && strings.HasSuffix(l, ".NumIn()"):
+					mc.numIn = k
+				default:
+					okCase = false
+				}
+			}
+			if okCase {
+				conj(cc.List[0])
+			}
+			if !okCase || (mc.numIn < 0 && mc.numOut < 0) {
+				unknownCase = true
 				continue
-			}
-			mc := muxCase{}
-			l := exprString(be.X)
-			switch {
-			case strings.HasSuffix(l, ".NumOut()"):
-				mc.kind = "NumOut"
-			case strings.HasSuffix(l, ".NumIn()"):
-				mc.kind = "NumIn"
-			}
-			if tv, ok := mpk.TypesInfo.Types[be.Y]; ok && tv.Value != nil {
-				v, _ := constant.Int64Val(tv.Value)
-				mc.n = int(v)
 			}
 			for _, s2 := range cc.Body {
 				as, ok := s2.(*ast.AssignStmt)
@@ -761,13 +791,13 @@ func c17r4(c *an.Ctx) {
 		}
 		return false
 	})
-	if !c.Check(len(cases) >= 3 && hasDefaultErr, "registerOne | classification switch extracted", c.P.Pos(ro.Pos()), fmt.Sprint(cases), "cannot extract the mux's method classification switch") {
+	if !c.Check(len(cases) >= 3 && hasDefaultErr && !unknownCase, "registerOne | classification switch extracted", c.P.Pos(ro.Pos()), fmt.Sprint(cases), "cannot extract the mux's method classification switch") {
 		return
 	}
 	classify := func(sh shape) (muxCase, bool) {
 		numIn := 1 + len(sh.args) // method expression: receiver first
 		for _, mc := range cases {
-			if (mc.kind == "NumOut" && sh.results == mc.n) || (mc.kind == "NumIn" && numIn == mc.n) {
+			if (mc.numOut < 0 || sh.results == mc.numOut) && (mc.numIn < 0 || numIn == mc.numIn) {
 				return mc, true
 			}
 		}
@@ -1231,4 +1261,118 @@ func c17r6(c *an.Ctx) {
 		nRun++
 	})
 	c.Floor("protogen.Options.Run calls in main", 1, nRun)
+}
+
+// c17r7: a generated name has to be the same function of (service, method) everywhere it is emitted and for every
+// service of a file. A helper that remembers results in the generator (a memo keyed by less than the full identity,
+// a counter, a "last service" field) can hand the second service the first one's names.
+func c17r7(c *an.Ctx) {
+	pkg := c.P.ModPath + "/cmd/protoc-gen-go-drpc"
+	fns := must(c.P.SourceFuncs(pkg))
+	isDesc := func(t types.Type) bool {
+		pt, ok := t.(*types.Pointer)
+		if !ok {
+			return false
+		}
+		n, ok := pt.Elem().(*types.Named)
+		if !ok || n.Obj().Pkg() == nil || !strings.HasSuffix(n.Obj().Pkg().Path(), "/protogen") {
+			return false
+		}
+		switch n.Obj().Name() {
+		case "Method", "Service", "Message":
+			return true
+		}
+		return false
+	}
+	inPkg := map[*ssa.Function]bool{}
+	for _, fn := range fns {
+		inPkg[fn] = true
+	}
+	n := 0
+	for _, fn := range fns {
+		if fn.Parent() != nil {
+			continue
+		}
+		sig := fn.Signature
+		if sig.Results().Len() != 1 {
+			continue
+		}
+		if b, ok := sig.Results().At(0).Type().Underlying().(*types.Basic); !ok || b.Kind() != types.String {
+			continue
+		}
+		hasDesc := false
+		for i := 0; i < sig.Params().Len(); i++ {
+			if isDesc(sig.Params().At(i).Type()) {
+				hasDesc = true
+			}
+		}
+		if !hasDesc {
+			continue
+		}
+		n++
+		c.Analysed(fn)
+		// the helper and the package functions it calls
+		seen := map[*ssa.Function]bool{}
+		var work []*ssa.Function
+		work = append(work, fn)
+		bad := ""
+		var where ssa.Instruction
+		for len(work) > 0 && bad == "" {
+			f := work[len(work)-1]
+			work = work[:len(work)-1]
+			if seen[f] {
+				continue
+			}
+			seen[f] = true
+			for _, g := range an.WithAnon(f) {
+				an.Instrs(g, func(in ssa.Instruction) {
+					if bad != "" {
+						return
+					}
+					stateful := func(v ssa.Value) bool {
+						// reached through the receiver / a package variable (not through a descriptor argument)
+						root := an.PathOf(v).Root
+						if u, ok := v.(*ssa.UnOp); ok {
+							root = an.PathOf(u.X).Root
+						}
+						switch r := root.(type) {
+						case *ssa.Global:
+							return true
+						case *ssa.Parameter:
+							return !isDesc(r.Type()) && r.Parent().Signature.Recv() != nil && r == r.Parent().Params[0]
+						}
+						return false
+					}
+					switch x := in.(type) {
+					case *ssa.MapUpdate:
+						if stateful(x.Map) {
+							bad, where = "writes a map kept in the generator", in
+						}
+					case *ssa.Lookup:
+						if _, isMap := x.X.Type().Underlying().(*types.Map); isMap && stateful(x.X) {
+							bad, where = "reads a map kept in the generator", in
+						}
+					case *ssa.Store:
+						if fa, ok := x.Addr.(*ssa.FieldAddr); ok && stateful(fa) {
+							bad, where = "assigns a field of the generator", in
+						}
+						if _, ok := x.Addr.(*ssa.Global); ok {
+							bad, where = "assigns a package variable", in
+						}
+					case ssa.CallInstruction:
+						if callee := x.Common().StaticCallee(); callee != nil && inPkg[callee] {
+							work = append(work, callee)
+						}
+					}
+				})
+			}
+		}
+		pos := c.P.Pos(fn.Pos())
+		if where != nil {
+			pos = c.At(where)
+		}
+		c.Check(bad == "", an.ShortFunc(fn)+" | the name is a function of the descriptor arguments only", pos, "",
+			"a helper that computes a generated name "+bad+": a second service or method can get a name computed for another one")
+	}
+	c.Floor("name helpers of the generator", 1, n)
 }
